@@ -125,6 +125,7 @@ func run(c *runner.Ctx) {
 	recursiveSpace(c, globalModel)
 	wideStructs(c)
 	repeatedSetRule(c)
+	untaggedNested(c)
 	lateNames(c)
 	samePrintingTypes(c)
 	vals := valueMenu()
@@ -503,6 +504,74 @@ func recursiveSpace(c *runner.Ctx, globalModel map[string]walk.Fn) {
 						} else {
 							c.Outcome(fmt.Sprintf("clauses=%d", len(exp.Fields)))
 						}
+					}
+				}
+			}
+		}
+	}
+}
+
+// NT carries no tag rules at all: its rules come from a rule set registered for the type, and apply wherever a value
+// of the type occurs - by value, behind pointers, in slices, arrays and maps of pointers.
+type NT struct {
+	Code string
+	Tel  string
+}
+
+type NTHolder struct {
+	Name string         `valid:"required|need-name"`
+	V    NT             `valid:"exist"`
+	P    *NT            `valid:"exist"`
+	PP   **NT           `valid:"exist"`
+	L    []*NT          `valid:"exist"`
+	LV   []NT           `valid:"required"`
+	A    [2]*NT         `valid:"exist"`
+	M    map[string]*NT `valid:"exist"`
+	U    *NT            // unmarked: never reached
+}
+
+func untaggedNested(c *runner.Ctx) {
+	c.Space(c.Mode + ":untagged-nested-type-with-typed-rules")
+	rules := []map[string]string{{"Code": "required|t-code", "Tel": "to=2~3|t-tel"}, {"Tel": "required|t-tel2"}, {}}
+	nts := []NT{{}, {Code: "c", Tel: "toolong"}, {Code: "", Tel: "ok"}}
+	for ri, rm := range rules {
+		for a := range nts {
+			for b := range nts {
+				for how := 0; how < 3; how++ {
+					if !c.Take() {
+						continue
+					}
+					x, y := nts[a], nts[b]
+					px := &x
+					h := &NTHolder{Name: "n", V: x, P: &y, PP: &px, L: []*NT{&x, nil, &y}, LV: []NT{y, x}, A: [2]*NT{nil, &y}, M: map[string]*NT{"k": &x}, U: &NT{}}
+					opts := walk.Opts{Typed: map[reflect.Type]map[string]string{reflect.TypeOf(NT{}): rm}}
+					var err error
+					pan, msg, site := runner.Guard(func() {
+						switch how {
+						case 0:
+							err = valid.NewVStruct().SetRule(toRM(rm), &NT{}).Valid(h)
+						case 1:
+							err = valid.NewVStruct().SetRule(toRM(rm), NT{}).Valid(h)
+						default:
+							err = valid.NestedStructForRule(h, map[interface{}]valid.RM{&NT{}: toRM(rm)})
+						}
+					})
+					exp := walk.Struct(h, opts)
+					c.Done(true, 1)
+					actual := ""
+					if err != nil {
+						actual = err.Error()
+					}
+					det := map[string]interface{}{"typed_rules": rm, "rules_index": ri, "values": fmt.Sprintf("%+v / %+v", x, y), "registered_by": []string{"SetRule(rm, &NT{})", "SetRule(rm, NT{})", "NestedStructForRule"}[how], "expected": exp.Error(), "actual": actual}
+					if pan {
+						det["panic"] = msg
+						c.Violation("panic@"+site, det)
+						continue
+					}
+					if actual != exp.Error() {
+						c.Violation("untagged-nested/"+classify(exp.Fields, errparse.Split(actual)), det)
+					} else {
+						c.Outcome(fmt.Sprintf("clauses=%d", len(exp.Fields)))
 					}
 				}
 			}
